@@ -1014,29 +1014,49 @@ Variable regex_submatch : text -> text -> option (list text).
 Variable ext_call : N -> list value -> res.
 Notation call_function := (call_function wclass regex_submatch ext_call).
 
-Lemma mod_full : forall args c, Forall arg_exp_ok args -> call_function FMod args <> Panic c.
+Notation call_simple := (call_simple wclass regex_submatch ext_call).
+
+Lemma mod_call_ok : forall args, Forall arg_exp_ok args -> ok false (call_simple FMod args).
 Proof.
-  intros args c HF. apply ok_false_iff. unfold ExEval.call_function. rewrite call_not_foreach by discriminate.
-  unfold call_simple, two_number_function, num_args. apply min_max_args_ok_at. intros [H1 [H2|H2]]; [lia|].
+  intros args HF. unfold ExEval.call_simple, two_number_function, num_args.
+  apply min_max_args_ok_at. intros [H1 [H2|H2]]; [lia|].
   destruct args as [|v0 [|v1 [|v2 r]]]; simpl in *; try lia. unfold with_arg. simpl.
   destruct (to_number v0) as [n1|] eqn:E1; [|exact I]. destruct (to_number v1) as [n2|] eqn:E2; [|exact I].
   inversion HF as [|? ? H0 HF']; subst. inversion HF' as [|? ? H1' _]; subst.
   apply mod_body_full; [apply H0|apply H1']; assumption.
 Qed.
 
+Lemma mean_call_ok : forall args, Forall arg_exp_ok args -> ok false (call_simple FMean args).
+Proof.
+  intros args HF. unfold ExEval.call_simple, min_args. apply min_max_args_ok_at. intros [H1 _].
+  apply mean_body_full; assumption.
+Qed.
+
+Lemma percent_call_ok : forall args, Forall arg_exp_ok args -> ok false (call_simple FPercent args).
+Proof.
+  intros args HF. unfold ExEval.call_simple, one_number_function, num_args.
+  apply min_max_args_ok_at. intros [H1 [H2|H2]]; [lia|].
+  destruct args as [|v0 [|v1 r]]; simpl in *; try lia. unfold with_arg. simpl.
+  destruct (to_number v0) as [n1|] eqn:E1; [|exact I].
+  inversion HF as [|? ? H0 _]; subst. apply percent_body_full. apply H0. assumption.
+Qed.
+
+Lemma mod_full : forall args c, Forall arg_exp_ok args -> call_function FMod args <> Panic c.
+Proof.
+  intros args c HF. apply ok_false_iff. unfold ExEval.call_function. rewrite call_not_foreach by discriminate.
+  apply mod_call_ok. assumption.
+Qed.
+
 Lemma mean_full : forall args c, Forall arg_exp_ok args -> call_function FMean args <> Panic c.
 Proof.
   intros args c HF. apply ok_false_iff. unfold ExEval.call_function. rewrite call_not_foreach by discriminate.
-  unfold call_simple, min_args. apply min_max_args_ok_at. intros [H1 _]. apply mean_body_full; assumption.
+  apply mean_call_ok. assumption.
 Qed.
 
 Lemma percent_full : forall args c, Forall arg_exp_ok args -> call_function FPercent args <> Panic c.
 Proof.
   intros args c HF. apply ok_false_iff. unfold ExEval.call_function. rewrite call_not_foreach by discriminate.
-  unfold call_simple, one_number_function, num_args. apply min_max_args_ok_at. intros [H1 [H2|H2]]; [lia|].
-  destruct args as [|v0 [|v1 r]]; simpl in *; try lia. unfold with_arg. simpl.
-  destruct (to_number v0) as [n1|] eqn:E1; [|exact I].
-  inversion HF as [|? ? H0 _]; subst. apply percent_body_full. apply H0. assumption.
+  apply percent_call_ok. assumption.
 Qed.
 
 End FullCalls.
